@@ -114,3 +114,59 @@ Print Assumptions C17_restore_fft_solves_normal_equations.
 Print Assumptions C17_restore_fft_inverts_blur.
 Print Assumptions C17_restore_fft_channelwise.
 Print Assumptions C17_restore_matrix_solves_normal_equations.
+
+(* ------------------------------------------------------------------------------------------------
+   The contract is satisfiable, and by the transform NumPy documents: with K the complex numbers (pairs of reals) and
+   fft2 / ifft2 the two-dimensional discrete Fourier transform and its inverse (thm/DFT.v: inversion from the
+   orthogonality of the roots of unity, convolution and correlation theorems), every hypothesis of section S is a theorem. *)
+From Coq Require Import Reals Lra.
+From QVT Require Import DFT.
+
+Section Inst.
+Variables (H W kH kW : nat).
+Notation gen_restore := (gen_restore_fft CxR xconj xre xabs2 xdiv (fun H W => dft H W) (fun H W => idft H W) H W kH kW).
+Notation gen_blur := (gen_apply_blur_fft CxR xre (fun H W => dft H W) (fun H W => idft H W) H W kH kW).
+Notation realimg := (@isreal CxR xre H W).
+
+Lemma xabs2_plus_pos z l : (0 < l)%R -> xadd (xabs2 z) (ofR l) <> x0.
+Proof. destruct z as [p q]. unfold xabs2, xmul, xconj, xadd, ofR, x0. cbn [fst snd]. intros Hl E. injection E as E1 _. nra. Qed.
+
+Theorem C17_blur_fft_is_documented_operator_DFT Q psf c : (forall u v, xre (psf u v) = psf u v) -> realimg (Q c) ->
+  weq H W (gen_blur Q psf c) (Aop CxR H W kH kW psf (Q c)).
+Proof.
+  intros Rp Rq.
+  apply (C17_blur_fft_is_documented_operator CxR xre (fun H W => dft H W) (fun H W => idft H W) H W kH kW
+           (idft_w H W) (idft_dft H W) (dft_idft H W) (dft_conv H W) xre_0 xre_add xre_scale); assumption.
+Qed.
+
+Theorem C17_restore_fft_solves_normal_equations_DFT Bq psf l c :
+  (forall u v, xre (psf u v) = psf u v) -> realimg (Bq c) -> (0 < l)%R ->
+  let X := gen_restore Bq psf (ofR l) c in
+  weq H W (rmadd (ATop CxR H W kH kW psf (Aop CxR H W kH kW psf X)) (rmscale (ofR l : CxR) X)) (ATop CxR H W kH kW psf (Bq c)).
+Proof.
+  intros Rp Rb Hl.
+  apply (C17_restore_fft_solves_normal_equations CxR xconj xre xabs2 xdiv (fun H W => dft H W) (fun H W => idft H W) H W kH kW
+           (idft_w H W) (idft_dft H W) (dft_idft H W) (dft_add H W) (dft_scale H W) (dft_conv H W) (dft_corr H W)
+           (fun z => eq_refl) xdiv_mul xre_0 xre_add xre_scale); try assumption.
+  - reflexivity.
+  - intros u v _ _. now apply xabs2_plus_pos.
+Qed.
+
+Theorem C17_restore_fft_inverts_blur_DFT X psf c : realimg (X c) ->
+  (forall u v, (u < H)%nat -> (v < W)%nat -> dft H W (PADK CxR H W kH kW psf) u v <> x0) ->
+  weq H W (gen_restore (fun c => Aop CxR H W kH kW psf (X c)) psf x0 c) (X c).
+Proof.
+  intros Rx Hn.
+  apply (C17_restore_fft_inverts_blur CxR xconj xre xabs2 xdiv (fun H W => dft H W) (fun H W => idft H W) H W kH kW
+           (idft_w H W) (idft_dft H W) (dft_idft H W) (dft_conv H W) (fun z => eq_refl) xdiv_cancel); [assumption|].
+  intros u v Hu Hv E. specialize (Hn u v Hu Hv).
+  assert (E2 : xabs2 (dft H W (PADK CxR H W kH kW psf) u v) = x0).
+  { transitivity (xadd (xabs2 (dft H W (PADK CxR H W kH kW psf) u v)) x0); [|exact E]. destruct (xabs2 _). unfold xadd, x0. cbn [fst snd]. f_equal; lra. }
+  unfold xabs2 in E2. apply xmul_integral in E2; [|exact Hn]. apply Hn.
+  rewrite <- (xconj_invol (dft H W (PADK CxR H W kH kW psf) u v)), E2. unfold xconj, x0. cbn [fst snd]. f_equal. lra.
+Qed.
+End Inst.
+
+Print Assumptions C17_blur_fft_is_documented_operator_DFT.
+Print Assumptions C17_restore_fft_solves_normal_equations_DFT.
+Print Assumptions C17_restore_fft_inverts_blur_DFT.
